@@ -9,6 +9,9 @@ export VERIF_SEED="${VERIF_SEED:-1}"
 mkdir -p "$ROOT/evidence" "$ROOT/replays" "$H/target"
 
 build_tsim() {
+    # the crate under test is compiled from a generated copy of /repo/src in which std's synchronisation
+    # primitives are shuttle's (every atomic / lock / thread operation becomes a scheduling point)
+    python3 "$ROOT/tools/mk_shuttle_src.py" >/dev/null || { echo "harness error: mk_shuttle_src failed"; exit 2; }
     (cd "$H/shuttle-ws" && cargo build --release -p tsim -q 2>"$H/target/build-tsim.log") || {
         echo "harness error: tsim build failed"; tail -n 30 "$H/target/build-tsim.log"; exit 2; }
 }
@@ -61,7 +64,7 @@ quick|thorough)
     build_tsim
     EV="$ROOT/evidence/C16.json"; rm -f "$EV"
     T1=$(mktemp "$H/target/ev.XXXXXX")
-    "$TSIM" check --tier "$TIER" --evidence "$T1" --replays "$ROOT/replays"
+    "$TSIM" check --tier "$TIER" --evidence "$T1" --replays "$ROOT/replays" ${C16_TSIM_ITERATIONS:+--iterations "$C16_TSIM_ITERATIONS"}
     rc=$?
     [ $rc -ge 2 ] && { rm -f "$T1"; exit 2; }
     miri_json='{"ran": false, "reason": "Miri layer runs in the thorough tier only (1.5-5 min per seed)"}'
